@@ -28,6 +28,30 @@ CLAIMED["C10"] = dict(
     note=_NOTE,
     technique="static analysis: MIR dominance / must-pass-through / discard (unused fallible result) census / strict-compare rules")
 
+CLAIMED["C08"] = dict(
+    level=("Static decision over every CFG path of the event source: the three alias limits are compared strictly with their own "
+           "counters and produce their own errors; the per-anchor and stack-depth checks dominate the replay-frame push; the "
+           "total-replayed check and the budget observation dominate every replayed delivery; counters advance with checked / "
+           "saturating adds and are written only by the pump and the document reset; only the event source constructs and pulls "
+           "the parser. Not decided (declared n/a in DESIGN §4): peak heap and visitor-call scaling laws."),
+    note=_NOTE, technique="static analysis: MIR counter/limit pairing, dominance, who-writes / who-calls census")
+CLAIMED["C11"] = dict(
+    level=("Static decision over every CFG path: every per-document field written by the event pump is cleared by the document "
+           "reset, which runs on both boundary arms of the pump and of the skip path; user code runs in exactly one anchor scope "
+           "per document, opened inside the document loop; every single-document entry point turns a second document into the "
+           "multiple-documents error before finishing; the three streaming iterators test `finished` first, set it on every "
+           "stream-ending path, skip only null-like roots and only failed documents, and every loop consumes an event. Not "
+           "decided: equality with per-document deserialization, the exact resume position."),
+    note=_NOTE, technique="static analysis: MIR reset-completeness, must-pass-through, loop-progress (SCC) and sibling-agreement rules")
+CLAIMED["C02"] = dict(
+    level=("Static decision over every CFG path of the event pump: a replay frame is pushed only after the anchor-exists and "
+           "not-being-recorded checks (whose failing edges are the unknown-anchor / recursive-reference errors); every delivered "
+           "event except the synthetic empty-document scalar is recorded into the open anchor frames with the depth bump before "
+           "starts and the frame close after ends; buffers are stored at the node's own anchor id; the parser is pulled only when "
+           "the replay stack is empty; anchors are cleared at every document boundary. Not decided: equality with the alias-free "
+           "expansion (a statement about event sequences)."),
+    note=_NOTE, technique="static analysis: MIR guard-dominance and must-pass-through rules over the alias/anchor state machine")
+
 NOT_APPLICABLE = {("C%02d" % i): _NB for i in range(1, 21) if ("C%02d" % i) not in CLAIMED}
 
 CLAIMED["C10"] = dict(
@@ -39,5 +63,29 @@ CLAIMED["C10"] = dict(
            "failing and the entry point returns it. Not decided: prefix property of partial output, exact bytes pulled."),
     note=_NOTE,
     technique="static analysis: MIR dominance / must-pass-through / discard (unused fallible result) census / strict-compare rules")
+
+CLAIMED["C08"] = dict(
+    level=("Static decision over every CFG path of the event source: the three alias limits are compared strictly with their own "
+           "counters and produce their own errors; the per-anchor and stack-depth checks dominate the replay-frame push; the "
+           "total-replayed check and the budget observation dominate every replayed delivery; counters advance with checked / "
+           "saturating adds and are written only by the pump and the document reset; only the event source constructs and pulls "
+           "the parser. Not decided (declared n/a in DESIGN §4): peak heap and visitor-call scaling laws."),
+    note=_NOTE, technique="static analysis: MIR counter/limit pairing, dominance, who-writes / who-calls census")
+CLAIMED["C11"] = dict(
+    level=("Static decision over every CFG path: every per-document field written by the event pump is cleared by the document "
+           "reset, which runs on both boundary arms of the pump and of the skip path; user code runs in exactly one anchor scope "
+           "per document, opened inside the document loop; every single-document entry point turns a second document into the "
+           "multiple-documents error before finishing; the three streaming iterators test `finished` first, set it on every "
+           "stream-ending path, skip only null-like roots and only failed documents, and every loop consumes an event. Not "
+           "decided: equality with per-document deserialization, the exact resume position."),
+    note=_NOTE, technique="static analysis: MIR reset-completeness, must-pass-through, loop-progress (SCC) and sibling-agreement rules")
+CLAIMED["C02"] = dict(
+    level=("Static decision over every CFG path of the event pump: a replay frame is pushed only after the anchor-exists and "
+           "not-being-recorded checks (whose failing edges are the unknown-anchor / recursive-reference errors); every delivered "
+           "event except the synthetic empty-document scalar is recorded into the open anchor frames with the depth bump before "
+           "starts and the frame close after ends; buffers are stored at the node's own anchor id; the parser is pulled only when "
+           "the replay stack is empty; anchors are cleared at every document boundary. Not decided: equality with the alias-free "
+           "expansion (a statement about event sequences)."),
+    note=_NOTE, technique="static analysis: MIR guard-dominance and must-pass-through rules over the alias/anchor state machine")
 
 NOT_APPLICABLE = {("C%02d" % i): _NB for i in range(1, 21) if ("C%02d" % i) not in CLAIMED}
